@@ -5,7 +5,7 @@
    [wfm r c M] says that M has r rows of length c; [ratio dim anis k] is the k-th entry of (1, anis') where anis'
    is the padded ratio list set_anis dim anis; [sumf n f] = f 0 + ... + f (n-1). *)
 From Coq Require Import Reals List.
-From GS Require Import Num Loops C12_Model C12_Mat C12_Bridge C12_Proofs C12_Proofs2 C12_Proofs3 C12_Proofs4.
+From GS Require Import Num Loops C12_Model C12_Mat C12_Bridge C12_Proofs C12_Proofs2 C12_Proofs3 C12_Proofs4 C12_Proofs5.
 Import ListNotations.
 Open Scope R_scope.
 
@@ -190,6 +190,45 @@ Theorem C12_temporal_3d_plus_time : forall angles : list R,
   (forall i, (i < 4)%nat -> mof Rt i 3%nat = delta i 3 /\ mof Rt 3%nat i = delta 3 i).
 Proof. exact temporal_3d_plus_time. Qed.
 Print Assumptions C12_temporal_3d_plus_time.
+
+(* ---- one model object under every history of setter calls (geo_step: len_scale scalar/list, anis, angles, dim;
+   a failing call leaves the state alone).  Evaluations are by construction functions of the PRESENT state
+   (geo_isometrize s pos = isometrize (g_dim s) (g_angles s) (g_anis s) pos): nothing may depend on earlier states. *)
+Theorem C12_history_wellformed : forall (ops : list (geo_op (T:=R))) (s : @geo R),
+  geo_ok s -> geo_ok (fold_left (geo_step Rops) ops s).
+Proof. exact geo_history_ok. Qed.
+Print Assumptions C12_history_wellformed.
+
+Theorem C12_init_wellformed : forall dim ls anis angles temporal (s : @geo R), (1 <= dim)%nat ->
+  geo_init Rops dim ls anis angles temporal = Some s -> geo_ok s.
+Proof. exact geo_init_ok. Qed.
+Print Assumptions C12_init_wellformed.
+
+(* the stored parameters are fixed points of the padding functions: every matrix is built from exactly the stored values *)
+Theorem C12_stored_params_normal : forall s : @geo R, geo_ok s ->
+  set_anis Rops (g_dim s) (g_anis s) = g_anis s /\ set_angles Rops (g_dim s) (g_angles s) = g_angles s.
+Proof. exact geo_params_normal. Qed.
+Print Assumptions C12_stored_params_normal.
+
+(* after every history the coordinate maps of the present state are mutually inverse *)
+Theorem C12_history_round_trip : forall (ops : list (geo_op (T:=R))) (s : @geo R) (n : nat) (pos : list (list R)),
+  geo_ok s ->
+  let s' := fold_left (geo_step Rops) ops s in
+  wfm (g_dim s') n pos ->
+  geo_isometrize Rops s' (geo_anisometrize Rops s' pos) = pos /\
+  geo_anisometrize Rops s' (geo_isometrize Rops s' pos) = pos.
+Proof. exact geo_history_round_trip. Qed.
+Print Assumptions C12_history_round_trip.
+
+(* a scalar len_scale assignment changes the main length scale and nothing else *)
+Theorem C12_scalar_len_keeps_geometry : forall (s : @geo R) (l : R), geo_ok s -> 0 < l ->
+  geo_step Rops s (OpLen [l]) = mkGeo (g_dim s) l (g_anis s) (g_angles s) (g_temporal s).
+Proof. exact geo_scalar_len. Qed.
+Print Assumptions C12_scalar_len_keeps_geometry.
+
+Theorem C12_geo_ok_satisfiable : geo_ok (mkGeo 3%nat 2 [1; / 2] [0; 1; 0] false).
+Proof. exact geo_ok_example. Qed.
+Print Assumptions C12_geo_ok_satisfiable.
 
 Theorem C12_hypotheses_satisfiable :
   (0 < 3)%nat /\ Forall (fun a => 0 < a) [2; / 2] /\ wfm 3 2 [[1; 2]; [3; 4]; [5; 6]] /\
